@@ -2,6 +2,7 @@ package exec
 
 import (
 	"fmt"
+	"os"
 
 	"verif/govc/term"
 )
@@ -51,30 +52,59 @@ func skolemize(t *T, sks *[]*T) *T {
 }
 
 // instances returns ground instances of the single-Int-variable universals among hyps.
-func instances(hyps []*T, sks []*T) []*T {
+func instances(hyps []*T, sks []*T, neighbours bool) []*T {
 	if len(sks) == 0 || len(sks) > 4 {
 		return nil
 	}
 	var out []*T
-	var visit func(h *T)
-	visit = func(h *T) {
+	// ctx: the other disjuncts when the universal sits under a disjunction (facts assumed under a
+	// path condition have the shape `not pc or forall ...`)
+	var visit func(h *T, ctx []*T)
+	emit := func(t *T, ctx []*T) {
+		if len(ctx) > 0 {
+			t = term.Or(append(append([]*T(nil), ctx...), t)...)
+		}
+		out = append(out, t)
+	}
+	visit = func(h *T, ctx []*T) {
 		switch h.Op {
 		case term.OAnd:
 			for _, a := range h.Args {
-				visit(a)
+				visit(a, ctx)
+			}
+		case term.OOr:
+			for i, a := range h.Args {
+				if a.Op != term.OForall && a.Op != term.OAnd {
+					continue
+				}
+				var rest []*T
+				rest = append(rest, ctx...)
+				for k, b := range h.Args {
+					if k != i {
+						rest = append(rest, b)
+					}
+				}
+				visit(a, rest)
 			}
 		case term.OForall:
 			if len(h.Bnd) != 1 || h.Bnd[0].Sort != term.Int || h.Pat != nil {
 				return
 			}
 			for _, sk := range sks {
-				out = append(out, term.Subst(h.Args[0], map[*T]*T{h.Bnd[0]: sk}))
+				// the neighbours too: recursive definitions and in-place updates relate position j to j-1 / j+1
+				ds := []int64{0, -1, 1}
+				if !neighbours {
+					ds = ds[:1]
+				}
+				for _, d := range ds {
+					emit(term.Subst(h.Args[0], map[*T]*T{h.Bnd[0]: term.Add(sk, term.I(d))}), ctx)
+				}
 			}
 		}
 	}
 	for _, h := range hyps {
-		visit(h)
-		if len(out) > 64 {
+		visit(h, nil)
+		if len(out) > 200 {
 			break
 		}
 	}
@@ -116,7 +146,7 @@ func (p *Program) defInstances(x *Exec, ts []*T) []*T {
 	for _, t := range ts {
 		walk(t)
 	}
-	for round := 0; round < 2 && len(apps) > 0 && len(out) < 200; round++ {
+	for round := 0; round < 1 && len(apps) > 0 && len(out) < 200; round++ {
 		cur := apps
 		apps = nil
 		for _, app := range cur {
@@ -128,6 +158,134 @@ func (p *Program) defInstances(x *Exec, ts []*T) []*T {
 			inst := term.Subst(ax.Args[0], m)
 			out = append(out, inst)
 			walk(inst)
+		}
+	}
+	return out
+}
+
+// matchInstances: E-matching modulo linear arithmetic for the most common shape. For a hypothesis
+// forall i. ... select(X, i + r) ... (X and r ground) and every ground term select(X, J) of the
+// query, the instance i := J - r is added. The solvers' own E-matching does not see through the
+// addition (slice offsets), which left simple range facts about data[k] unusable.
+func matchInstances(hyps []*T, extra ...*T) []*T {
+	if os.Getenv("GOVC_NO_MATCH") != "" {
+		return nil
+	}
+	ground := map[*T][]*T{} // array term -> index terms
+	seenSel := map[*T]bool{}
+	seen := map[*T]bool{}
+	var walk func(t *T)
+	walk = func(t *T) {
+		if seen[t] {
+			return
+		}
+		seen[t] = true
+		if t.Op == term.OForall || t.Op == term.OExists {
+			return
+		}
+		if t.Op == term.OSelect && !t.HasBound() && !seenSel[t] {
+			seenSel[t] = true
+			ground[t.Args[0]] = append(ground[t.Args[0]], t.Args[1])
+		}
+		for _, a := range t.Args {
+			walk(a)
+		}
+	}
+	for _, h := range hyps {
+		walk(h)
+	}
+	for _, e := range extra {
+		walk(e)
+	}
+	var out []*T
+	dedupe := map[*T]bool{}
+	var visit func(h *T, ctx []*T)
+	visit = func(h *T, ctx []*T) {
+		switch h.Op {
+		case term.OAnd:
+			for _, a := range h.Args {
+				visit(a, ctx)
+			}
+		case term.OOr:
+			for i, a := range h.Args {
+				if a.Op != term.OForall && a.Op != term.OAnd {
+					continue
+				}
+				var rest []*T
+				rest = append(rest, ctx...)
+				for k, b := range h.Args {
+					if k != i {
+						rest = append(rest, b)
+					}
+				}
+				visit(a, rest)
+			}
+		case term.OForall:
+			if len(h.Bnd) != 1 || h.Bnd[0].Sort != term.Int {
+				return
+			}
+			b := h.Bnd[0]
+			// candidates in discovery order (deterministic scripts: solver behaviour depends on it)
+			var candList []*T
+			candSeen := map[*T]bool{}
+			addCand := func(c *T) {
+				if !candSeen[c] {
+					candSeen[c] = true
+					candList = append(candList, c)
+				}
+			}
+			s2 := map[*T]bool{}
+			var find func(t *T)
+			find = func(t *T) {
+				if s2[t] || !t.HasBound() {
+					return
+				}
+				s2[t] = true
+				if t.Op == term.OSelect && !t.Args[0].HasBound() {
+					if rest := term.Sub(t.Args[1], b); !rest.HasBound() {
+						// index = b + rest
+						for _, j := range ground[t.Args[0]] {
+							addCand(term.Sub(j, rest))
+						}
+					} else if rest := term.Add(t.Args[1], b); !rest.HasBound() {
+						// index = rest - b
+						for _, j := range ground[t.Args[0]] {
+							addCand(term.Sub(rest, j))
+						}
+					}
+				}
+				for _, a := range t.Args {
+					find(a)
+				}
+			}
+			find(h.Args[0])
+			n := 0
+			for _, c := range candList {
+				if n >= 16 {
+					break
+				}
+				inst := term.Subst(h.Args[0], map[*T]*T{b: c})
+				if len(ctx) > 0 {
+					inst = term.Or(append(append([]*T(nil), ctx...), inst)...)
+				}
+				if !dedupe[inst] && inst != term.True {
+					dedupe[inst] = true
+					out = append(out, inst)
+					n++
+				}
+			}
+		}
+	}
+	for _, h := range hyps {
+		visit(h, nil)
+		if len(out) > 96 {
+			break
+		}
+	}
+	if os.Getenv("GOVC_DEBUG_INST") != "" {
+		fmt.Fprintf(os.Stderr, "matchInstances: %d hyps, %d ground arrays, %d instances\n", len(hyps), len(ground), len(out))
+		for _, o := range out {
+			fmt.Fprintf(os.Stderr, "   inst %.200s\n", o.String())
 		}
 	}
 	return out
